@@ -18,7 +18,7 @@ LEVEL_TEXT = {
  'C15': "Every conductor API call of every simulated run on inspection-accepted generated definitions runs under an exception monitor and a per-call alarm; only the documented rejections may leave a call. The completeness-of-inspection half is input generation: it is only sampled by an admission step (one injected definition fault of the five enumerated classes per sampled definition; inspection must report it) and is claimed at that strength.",
  'C17': "Runs are driven to failed/succeeded by each cause, then rerun requests (default, explicit, reset_items, inadmissible) are issued; offers after the request are matched against rerun entitlements; a twin whose re-executed actions succeed the first time gives the expected final status/output.",
  'C18': "Consecutive persisted states are diffed after every API call: sequence/contexts/routes are prefixes; started records keep id/route/ctxs.in/prev; decided records keep status/next/ctxs.out.",
- 'C19': "Each seed is executed in fresh interpreters under different PYTHONHASHSEED values; digest chains over graph, inspection, offers, persisted state, errors and output are compared; get_next_tasks() is called twice at every dispatch point and must be idempotent.",
+ 'C19': "Each seed is executed in fresh interpreters under different PYTHONHASHSEED values; digest chains over graph, inspection, offers, persisted state, errors and output are compared; get_next_tasks() is called twice at every dispatch point and must be idempotent; 15% of the seeds compare the inspection report of a definition broken in 1-4 places (non-empty report, tied sort keys) across hash seeds.",
 }
 def main():
     m = json.load(open('/verif/MANIFEST.json'))
